@@ -303,8 +303,25 @@ def _rand_labels(rng, shape, dtype):
     return d
 
 
+def _interleave(head, blocks, rands):
+    """corpus first; the (heavy) exhaustive blocks spread evenly among the random cases so that the
+    engine's contiguous chunks get equal work"""
+    out = list(head)
+    if not blocks:
+        return out + rands
+    step = max(1, len(rands) // len(blocks))
+    ri = 0
+    for b in blocks:
+        out.append(b)
+        out += rands[ri:ri + step]
+        ri += step
+    return out + rands[ri:]
+
+
 def cases(rng, tier):
     out = list(_corpus()) if tier != 'search' else []
+    blocks = []
+    rands = []
     if tier != 'search':
         for func, shape, dt in (('distance', [0, 3], 'bool'), ('distance', [3, 0], 'bool'), ('distance', [], 'bool'),
                                 ('distance', [0], 'bool'), ('distance', [2, 0, 2], 'uint8'), ('distance', [], 'float64'),
@@ -313,17 +330,17 @@ def cases(rng, tier):
     if tier == 'thorough':
         for shp in ([3, 4], [2, 2, 3], [4, 3], [1, 12], [12], [2, 3, 2], [1, 2, 2, 3]):
             for lo in range(0, 4096, 256):
-                out.append(dict(block='exh', shape=shp, imgs=list(range(lo, lo + 256))))
+                blocks.append(dict(block='exh', shape=shp, imgs=list(range(lo, lo + 256))))
     else:
         for shp in ([3, 4], [2, 2, 3], [12], [1, 2, 2, 3]):
-            out.append(dict(block='exh', shape=shp, imgs=sorted(rng.sample(range(4096), 300))))
+            blocks.append(dict(block='exh', shape=shp, imgs=sorted(rng.sample(range(4096), 300))))
     nrand = dict(quick=2000, thorough=40000, search=10000)[tier]
     for _ in range(nrand):
         r = rng.random()
         if r < 0.7:
             shape = _rand_shape(rng)
             dtype = rng.choice(BW_DTYPES)
-            out.append(dict(kind='dist', shape=shape, dtype=dtype, data=_rand_bw(rng, shape, dtype),
+            rands.append(dict(kind='dist', shape=shape, dtype=dtype, data=_rand_bw(rng, shape, dtype),
                             layout=rng.choice(gen.LAYOUTS), metric=rng.choice(['euclidean2', 'euclidean2', 'euclidean'])))
         elif r < 0.9:
             if rng.random() < 0.05:
@@ -333,14 +350,14 @@ def cases(rng, tier):
             else:
                 shape = [rng.randint(1, 12), rng.randint(1, 12)]
             dtype = rng.choice(['int32', 'int64', 'uint8', 'uint16', 'int8', 'bool', 'uint64'])
-            out.append(dict(kind='gvor', shape=shape, dtype=dtype, data=_rand_labels(rng, shape, dtype),
+            rands.append(dict(kind='gvor', shape=shape, dtype=dtype, data=_rand_labels(rng, shape, dtype),
                             layout=rng.choice(gen.LAYOUTS)))
         else:
             n = rng.choice([1, 2, 3, 5, 8, 13, 30])
             top = rng.choice([3, 20, 200, 2 * n * n + 1])
             data = [rng.choice([0, top, rng.randint(0, top)]) for _ in range(n)]
-            out.append(dict(kind='dt1d', data=data, strided=rng.random() < 0.5))
-    return out
+            rands.append(dict(kind='dt1d', data=data, strided=rng.random() < 0.5))
+    return _interleave(out, blocks, rands)
 
 
 def shrink(case):
